@@ -62,3 +62,8 @@ func Keys[V any](m map[string]V) []string {
 	}
 	return keys
 }
+
+// Poisoned is set (to a reason) when code under test was left hanging inside this process: its
+// goroutine may hold process-wide locks of the code under test, so no further execution in this
+// process means anything. The runner reports the violation without in-process replay and stops.
+var Poisoned string
